@@ -296,6 +296,56 @@ func runC01(c *Ctx) {
 		okT := h1 && pkIn && vrfIn
 		c.Check(fname(pth)+"#challenge-binds-message-key-and-output", pth.Pos(), okT, ifelse(okT, "the challenge transcript contains H1(m), the public key and the VRF point of the proof ("+where+")", fmt.Sprintf("the challenge hash does not cover (H1 of the message=%v, the public key=%v, the VRF point carried in the proof=%v) directly (%s): a key holder can choose the VRF output freely and still present a proof that verifies", h1, pkIn, vrfIn, where)))
 	}
+
+	// ------------------------------------------------------------ R9
+	c.Rule("C01.R9", "MUST-REACH", "a valid signature of every counted voter: with BLS enabled verifyVotes checks ONE aggregate over a common message against the sum of the listed validators' BLS keys, which proves each listed voter signed only if every registered key is known to be possessed by its registrant (otherwise a key chosen as x*G minus the others' keys lets one validator sign for all of them). So the path that admits a BLS key from a transaction into a validator record — TxCreateValidator.PreCheck / Verify, handleCreate, teCreate — reaches a single-key BLS verification (a proof of possession)")
+	c.Min(1)
+	{
+		vv := w.Fn("consensus/ucon", "Server", "verifyVotes")
+		common := false
+		for _, ci := range callInstrs(vv) {
+			if o := calleeObj(ci); o != nil && o.Name() == "VerifyAggregatedOne" {
+				common = true
+			}
+		}
+		roots := []*ssa.Function{
+			w.Fn("staking", "TxCreateValidator", "PreCheck"),
+			w.Fn("staking", "TxCreateValidator", "Verify"),
+			w.Fn("staking", "", "handleCreate"),
+			w.Fn("staking", "", "teCreate"),
+		}
+		for _, r := range roots {
+			c.sawFunc(fname(r))
+		}
+		reach := w.ReachableFrom(roots, func(fn *ssa.Function) bool {
+			if fn.Pkg == nil {
+				return false
+			}
+			p := fn.Pkg.Pkg.Path()
+			return p == full("logging") || strings.HasPrefix(p, full("metrics")) || p == full("trie") || p == full("rlp")
+		})
+		proves := ""
+		for fn := range reach {
+			for _, ci := range callInstrs(fn) {
+				o := calleeObj(ci)
+				if o == nil || o.Pkg() == nil {
+					continue
+				}
+				pp := o.Pkg().Path()
+				single := (pp == full("bls") && o.Name() == "Verify") || (strings.HasSuffix(pp, "/g2pubs") && o.Name() == "Verify")
+				if single {
+					proves = fname(fn) + " at " + w.Pos(ci.Pos())
+				}
+			}
+		}
+		c.sites++
+		c.Note("R9: %d functions reachable from the create-validator path", len(reach))
+		if !common {
+			c.Pass("staking.TxCreateValidator#bls-key-possession-proven", roots[0].Pos(), "verifyVotes does not use the common-message aggregate check: no possession proof is needed")
+		} else {
+			c.Check("staking.TxCreateValidator#bls-key-possession-proven", roots[0].Pos(), proves != "", ifelse(proves != "", "the registration path verifies a signature under the new BLS key ("+proves+")", "verifyVotes accepts one aggregate signature over a common message for the SUM of the listed BLS keys, and nothing on the registration path (PreCheck, Verify, handleCreate, teCreate) verifies that the registrant holds the secret of the BLS key it registers: a validator registering pk = x*G2 - (pk1+..+pkn) makes a header carrying the others' public sortition proofs and ONE signature of its own verify as if all of them had signed"))
+		}
+	}
 }
 
 func ifelse(b bool, x, y string) string {
